@@ -1908,7 +1908,11 @@ uf = np.array(base.U_full); vis = tm.visible_modes(base); seen = []
 def exp(cs):
     seen.extend(cs)
     return [{lw.State(list(k)): v for k, v in tm.exact_frequencies(c, ins, n).items()} for c in cs]
-rho = np.array(StateTomography(n, base, exp).process())
+try:
+    rho = np.array(StateTomography(n, base, exp).process())
+except Exception as e:
+    print(json.dumps({"impl_error": type(e).__name__ + ": " + str(e)[:200]}))
+    sys.exit(0)
 order = [tm.identify_setting(c, uf, vis, n)[0] for c in seen]
 print(json.dumps({"order": order, "rho": [[[z.real, z.imag] for z in r] for r in rho]}))
 """
@@ -1929,6 +1933,11 @@ def hash_order_probe(ctx: Ctx, rng) -> None:
         if r.returncode != 0:
             raise MachineryFault("hash-order probe failed: " + r.stderr[-800:])
         d = json.loads(r.stdout.strip().splitlines()[-1])
+        if "impl_error" in d:
+            ctx.violation(f"oracle: StateTomography(...).process() on exact outcome frequencies raised {d['impl_error']} "
+                          f"(fresh interpreter, PYTHONHASHSEED={hs})",
+                          {"stream": "probe", "hashseed": hs, "prog": prog}, sig={"kind": "probe-raises"})
+            return
         order = d["order"]
         rho = np.array([[complex(*z) for z in row] for row in d["rho"]])
         outs.append((hs, order, rho))
